@@ -5,7 +5,9 @@ package schedulerplugin
 
 import (
 	"net"
+	"time"
 
+	corev1 "k8s.io/api/core/v1"
 	"tkestack.io/galaxy/pkg/ipam/floatingip"
 )
 
@@ -52,4 +54,19 @@ func (p *FloatingIPPlugin) VerifResyncItem(c *VerifChecklist, ip net.IP) {
 // (to stop one request between two of them while another request arrives). Built only with -tags verif.
 func (p *FloatingIPPlugin) VerifWrapIpam(wrap func(floatingip.IPAM) floatingip.IPAM) {
 	p.ipam = wrap(p.ipam)
+}
+
+// VerifLoopAttempt hands one release event to the real event loop (loop): the loop is started, given the event and stopped as
+// soon as it has taken it. The attempt itself runs on the goroutine the loop started for it; when it fails that goroutine
+// queues the event again after its back-off, and the caller finds it with VerifDrainEvents. Built only with -tags verif.
+func (p *FloatingIPPlugin) VerifLoopAttempt(pod *corev1.Pod, retried int) {
+	stop := make(chan struct{})
+	done := make(chan struct{})
+	go func() { p.loop(stop); close(done) }()
+	p.unreleased <- &releaseEvent{pod: pod, retryTimes: retried}
+	for len(p.unreleased) > 0 {
+		time.Sleep(time.Millisecond)
+	}
+	close(stop)
+	<-done
 }
